@@ -48,6 +48,7 @@ type c01Case struct {
 	Root    uint64        `json:"root"`
 	Osz     uint8         `json:"osz"`
 	NDims   int           `json:"ndims"`
+	ZTail   uint64        `json:"ztail"` // indexraw: that many zero bytes follow File
 }
 
 type c01Chunk struct {
